@@ -488,6 +488,35 @@ def sib_ctor(ctx: Ctx) -> RuleResult:
     return r
 
 
+def sib_ctorargs(ctx: Ctx) -> RuleResult:
+    """Where the library builds a DAG or an AsyncDAG from the same ingredients (the constructor, compose), the two constructor calls
+    are given the same arguments: an argument passed to one flavour only (max_concurrency ...) silently takes its default in the other."""
+    r = RuleResult("SIB-CTORARGS")
+    n = 0
+    for f in ctx.funcs():
+        if f.module.name.endswith("_twzsa_control"):
+            continue
+        calls = {"DAG": [], "AsyncDAG": []}
+        for c in iter_own_nodes(f.node):
+            if isinstance(c, ast.Call) and dotted(c.func) in calls:
+                calls[dotted(c.func)].append(c)
+        if len(calls["DAG"]) != 1 or len(calls["AsyncDAG"]) != 1:
+            continue
+        n += 1
+        a, b = calls["DAG"][0], calls["AsyncDAG"][0]
+        ka = {k.arg if k.arg else "**" + norm_src(k.value): norm_src(k.value) for k in a.keywords}
+        kb = {k.arg if k.arg else "**" + norm_src(k.value): norm_src(k.value) for k in b.keywords}
+        ok = ka == kb and [norm_src(x) for x in a.args] == [norm_src(x) for x in b.args]
+        r.ob(ok, {"in": f.short, "DAG(..) and AsyncDAG(..) built from the same arguments": ok})
+        if not ok:
+            only = sorted(set(ka.items()) ^ set(kb.items()))
+            r.violate(f"{f.short}: DAG(..) and AsyncDAG(..) are not built from the same arguments", f.loc(b),
+                      "the flavour that misses an argument runs with that argument's default: e.g. @dag(is_async=True, max_concurrency=4) "
+                      "schedules one node at a time", only)
+    r.require(n >= 2, f"functions building both flavours: {n} found (make_dag, compose expected)")
+    return r
+
+
 def sib_overload(ctx: Ctx) -> RuleResult:
     """The typing overloads of a function and its implementation state the same default for the same parameter.
 
@@ -541,5 +570,5 @@ def sib_overload(ctx: Ctx) -> RuleResult:
     return r
 
 
-RULES = {"SIB-OVERLOAD": sib_overload, "SIB-CTOR": sib_ctor, "SIB-DAG": sib_dag, "SIB-EXEC": sib_exec, "SIB-WAIT": sib_wait, "SIB-DRIVE": sib_drive, "SIB-FWD": sib_fwd,
+RULES = {"SIB-CTORARGS": sib_ctorargs, "SIB-OVERLOAD": sib_overload, "SIB-CTOR": sib_ctor, "SIB-DAG": sib_dag, "SIB-EXEC": sib_exec, "SIB-WAIT": sib_wait, "SIB-DRIVE": sib_drive, "SIB-FWD": sib_fwd,
          "SIB-FWD-SCHED": sib_fwd_sched, "SIB-BLOCK": sib_block}
